@@ -80,7 +80,28 @@ fn phrase(p: Profile) -> impl Strategy<Value = Vec<Op>> {
     if p.w_advance > 0 {
         alts.push((p.w_advance, advance_ms().prop_map(|ms| vec![Op::Advance { ms }]).boxed()));
     }
+    if p.w_ctl > 0 {
+        // saturate, pause, finish during the pause, resume: the freed worker must be used again
+        alts.push((p.w_ctl, (prop::collection::vec(sel(), 2..6), sel(), sel(), sel()).prop_map(|(ls, w, k, l)| {
+            let mut v: Vec<Op> = ls.into_iter().map(|l| Op::Connect { l }).collect();
+            v.extend([Op::Quiesce, Op::Pickup { w }, Op::Pause, Op::Quiesce, Op::Finish { w, k }, Op::Quiesce, Op::Resume, Op::Connect { l }, Op::Quiesce]);
+            v
+        }).boxed()));
+    }
+    if p.w_kill > 0 && p.w_ctl > 0 {
+        // the replacement arrives while the server is paused
+        alts.push((p.w_kill, (sel(), sel(), sel()).prop_map(|(w, l, l2)| vec![Op::Kill { w }, Op::Connect { l }, Op::Quiesce, Op::Pause, Op::Quiesce, Op::Replace, Op::Quiesce, Op::Resume, Op::Connect { l: l2 }, Op::Quiesce]).boxed()));
+    }
     if p.w_kill > 0 {
+        // a notification of a live worker while another worker is being replaced
+        alts.push((p.w_kill, (sel(), sel(), sel(), sel()).prop_map(|(w, w2, l, k)| vec![Op::Connect { l }, Op::Connect { l }, Op::Connect { l }, Op::Quiesce, Op::Kill { w }, Op::Connect { l }, Op::Quiesce, Op::Pickup { w: w2 }, Op::Finish { w: w2, k }, Op::Quiesce, Op::Replace, Op::Quiesce, Op::Connect { l }, Op::Connect { l }, Op::Quiesce]).boxed()));
+        // restart, then saturate: positions and worker indices have diverged
+        alts.push((p.w_kill, (sel(), sel(), prop::collection::vec(sel(), 3..8)).prop_map(|(w, l, ls)| {
+            let mut v = vec![Op::Kill { w }, Op::Connect { l }, Op::Quiesce, Op::Replace, Op::Quiesce];
+            v.extend(ls.into_iter().map(|l| Op::Connect { l }));
+            v.push(Op::Quiesce);
+            v
+        }).boxed()));
         alts.push((p.w_kill, sel().prop_map(|w| vec![Op::Kill { w }]).boxed()));
         alts.push((p.w_kill, Just(vec![Op::Replace]).boxed()));
         alts.push((p.w_kill, (sel(), sel()).prop_map(|(w, l)| vec![Op::Kill { w }, Op::Connect { l }, Op::Quiesce, Op::Replace, Op::Quiesce]).boxed()));
@@ -120,8 +141,10 @@ pub const P_C02: Profile = Profile { max_workers: 3, limits: &[1, 2, 3, 4], uds:
 pub const P_C03: Profile = Profile { max_workers: 3, limits: &[1, 1, 1, 2, 2, 2, 3, 4], uds: false, two_listeners: true, w_connect: 5, w_race: 2, w_ctl: 1, w_stop: 0, w_inject: 0, w_advance: 0, w_kill: 0, max_phrases: 10 };
 pub const P_C04_SAT: Profile = Profile { max_workers: 4, limits: &[1, 2, 3], uds: false, two_listeners: true, w_connect: 6, w_race: 0, w_ctl: 1, w_stop: 0, w_inject: 0, w_advance: 0, w_kill: 0, max_phrases: 10 };
 pub const P_C04_UNSAT: Profile = Profile { max_workers: 4, limits: &[64], uds: false, two_listeners: true, w_connect: 6, w_race: 1, w_ctl: 1, w_stop: 0, w_inject: 0, w_advance: 0, w_kill: 0, max_phrases: 10 };
-pub const P_C05: Profile = Profile { max_workers: 2, limits: &[64], uds: true, two_listeners: true, w_connect: 4, w_race: 0, w_ctl: 3, w_stop: 1, w_inject: 3, w_advance: 3, w_kill: 0, max_phrases: 9 };
-pub const P_C08: Profile = Profile { max_workers: 3, limits: &[1, 2, 3], uds: false, two_listeners: false, w_connect: 5, w_race: 1, w_ctl: 0, w_stop: 0, w_inject: 0, w_advance: 0, w_kill: 4, max_phrases: 9 };
+pub const P_C05: Profile = Profile { max_workers: 2, limits: &[64, 64, 1, 2], uds: true, two_listeners: true, w_connect: 4, w_race: 0, w_ctl: 3, w_stop: 1, w_inject: 3, w_advance: 3, w_kill: 0, max_phrases: 9 };
+pub const P_C04_FAULT: Profile = Profile { max_workers: 4, limits: &[1, 2], uds: false, two_listeners: false, w_connect: 6, w_race: 0, w_ctl: 0, w_stop: 0, w_inject: 0, w_advance: 0, w_kill: 3, max_phrases: 10 };
+pub const P_C03_FAULT: Profile = Profile { max_workers: 3, limits: &[1, 1, 2, 3], uds: false, two_listeners: false, w_connect: 5, w_race: 1, w_ctl: 1, w_stop: 0, w_inject: 0, w_advance: 0, w_kill: 3, max_phrases: 10 };
+pub const P_C08: Profile = Profile { max_workers: 3, limits: &[1, 2, 3], uds: false, two_listeners: false, w_connect: 5, w_race: 1, w_ctl: 1, w_stop: 0, w_inject: 0, w_advance: 0, w_kill: 4, max_phrases: 9 };
 
 pub fn nontrivial(prop: Prop, c: &Case, labels: &[&'static str]) -> bool {
     let has = |l: &str| labels.contains(&l);
